@@ -65,6 +65,14 @@ Theorem C13_cov_is_yadrenko : forall ora (cf : R -> R) (m : geomodel (T := R)) l
 Proof. exact cov_is_yadrenko. Qed.
 Print Assumptions C13_cov_is_yadrenko.
 
+(* 5b. bin membership: vario_estimate divides the user's bin edges by geo_scale and the kernel compares them with
+       the angle; equivalently the great-circle distance geo_scale * angle (= chordal_to_great_circle of the model's
+       chord, theorem 4) is compared with the user's edges *)
+Theorem C13_bins_in_geo_scale_units : forall ora g lo hi theta, 0 < g ->
+  in_bin (RO ora) (lo / g) (hi / g) theta = in_bin (RO ora) lo hi (g * theta).
+Proof. exact bins_geo_scale. Qed.
+Print Assumptions C13_bins_in_geo_scale_units.
+
 (* 6. chordal <-> great-circle conversions are mutually inverse on their ranges (fit_variogram, standard_bins) *)
 Theorem C13_chordal_great_circle_inverse : forall ora r, 0 < r ->
   (forall d, 0 <= d <= 2 * r ->
